@@ -85,17 +85,65 @@ def residual(expr, radicals=None, extra_relations=()):
     return num
 
 
+def _piecewise_cases(expr, limit=64):
+    """[(condition, expression)] of a term containing Piecewise nodes (if-converted branches of the analysed code): the
+    term is identically zero iff every case whose condition has interior points is.  Cases guarded by an equality are
+    dropped (no interior); the conditions are relational terms and are not simplified."""
+    e = sp.piecewise_fold(expr)
+    if not isinstance(e, sp.Piecewise):
+        if e.has(sp.Piecewise):
+            return None
+        return [(sp.true, e)]
+    out = []
+    neg = []
+    for val, cond in e.args:
+        c = sp.And(cond, *[sp.Not(n) for n in neg]) if cond is not sp.true else (sp.And(*[sp.Not(n) for n in neg]) if neg else sp.true)
+        neg.append(cond)
+        if isinstance(cond, sp.Eq):
+            continue
+        sub = _piecewise_cases(val, limit)
+        if sub is None:
+            return None
+        out.extend((sp.And(c, c2), v) for c2, v in sub)
+        if len(out) > limit:
+            return None
+    return out
+
+
 def is_zero(expr, radicals=None, extra_relations=()):
+    expr = sp.sympify(expr)
+    if expr.has(sp.Piecewise):
+        cases = _piecewise_cases(expr)
+        if cases is not None:
+            for cond, val in cases:
+                z, r = is_zero(val, radicals, extra_relations)
+                if not z:
+                    return False, sp.Piecewise((r, cond), (0, True), evaluate=False)
+            return True, sp.Integer(0)
     try:
         r = residual(expr, radicals, extra_relations)
     except (sp.PolynomialError, sp.CoercionFailed, ValueError, NotImplementedError):
-        r = sp.simplify(expr)
+        r = None
     if r == 0:
         return True, sp.Integer(0)
-    r2 = sp.simplify(r)
+    # a term that evaluates to a non-zero number at one point is not identically zero: no simplification needed (and
+    # simplify() of a large non-zero residual can take minutes)
+    base = r if r is not None else expr
+    if not expr.has(sp.Piecewise) and not extra_relations and not (radicals is not None and _has_radical_symbols(expr, radicals)):
+        pt, _v = witness(expr, tries=2)
+        if pt is not None:
+            return False, base
+    r2 = sp.simplify(base)
     if r2 == 0:
         return True, sp.Integer(0)
     return False, r2
+
+
+def _has_radical_symbols(expr, radicals):
+    try:
+        return any(expr.has(s) for s in radicals.rel)
+    except Exception:  # noqa: BLE001
+        return True
 
 
 def witness(expr, seed=0, tries=5):
